@@ -267,6 +267,59 @@ def run_fold_table(prog, tier, repo):
                     found.append((WRAPPING[nm], px, py, lt, t[7], nm))
         return found
 
+    def closure_ops(bi):
+        """arithmetic inside a closure handed to `bool::then` / `Option::map` in this block; the captured operands are mapped
+        back to the folder's parameters through the closure construction. Returns [(op tuple, guarded_nonzero)]"""
+        out = []
+        t = b.blocks[bi].term
+        if t[0] != 'call':
+            return out
+        for o in t[3]:
+            if o[0] not in ('c', 'm') or b.locals[o[1].local].k != 'closure':
+                continue
+            cb = prog.bodies.get(b.locals[o[1].local].id)
+            sdc = single_def(b, o[1].local)
+            if cb is None or not (sdc and sdc[1] != 'term' and sdc[2][0] == 'agg'):
+                continue
+            caps = [_param_root(b, c) for c in sdc[2][2]]
+
+            def cap_of(op2):
+                if op2[0] not in ('c', 'm'):
+                    return None
+                from ..dataflow import operand_root as _or
+                r2, p2 = _or(cb, op2)
+                fs2 = [e for e in p2 if e[0] in ('f', 't')]
+                if r2 == 1 and fs2:
+                    k2 = fs2[0][3] if fs2[0][0] == 'f' else fs2[0][1]
+                    return caps[k2] if k2 < len(caps) else None
+                return None
+            for cbl in cb.blocks:
+                if cbl.cleanup:
+                    continue
+                for st in cbl.stmts:
+                    if st[0] == 'a' and st[2][0] == 'bin':
+                        px, py = cap_of(st[2][2]), cap_of(st[2][3])
+                        if px is not None and py is not None:
+                            lt = cb.locals[st[2][2][1].local].s if st[2][2][0] in ('c', 'm') else None
+                            out.append((NORM.get(st[2][1], st[2][1]), px, py, lt, st[3], None))
+                ct = cbl.term
+                if ct[0] == 'call' and (callee(ct)[1] or '').split('::')[-1] in WRAPPING and len(ct[3]) == 2:
+                    nm2 = (callee(ct)[1] or '').split('::')[-1]
+                    px, py = cap_of(ct[3][0]), cap_of(ct[3][1])
+                    if px is not None and py is not None:
+                        lt = cb.locals[ct[3][0][1].local].s if ct[3][0][0] in ('c', 'm') else None
+                        out.append((WRAPPING[nm2], px, py, lt, ct[7], nm2))
+            # `(divisor != 0).then(|| ..)`: the closure only runs for a non-zero divisor
+            guarded = False
+            if (callee(t)[1] or '').endswith(('bool::then', '<impl bool>::then')) and t[3] and t[3][0][0] in ('c', 'm'):
+                sdb = single_def(b, t[3][0][1].local)
+                if sdb and sdb[1] != 'term' and sdb[2][0] == 'bin' and sdb[2][1] == 'Ne':
+                    for u, w in ((sdb[2][2], sdb[2][3]), (sdb[2][3], sdb[2][2])):
+                        if w[0] == 'k' and w[1].i == 0 and _param_root(b, u) == 3:
+                            guarded = True
+            out = [(f, guarded) for f in out]
+        return out
+
     def nonzero_on(conds):
         """does the path establish divisor (param 3) != 0 through a comparison with the constant 0?"""
         for (sb, succ) in conds:
@@ -297,6 +350,10 @@ def run_fold_table(prog, tier, repo):
                 for f in ops_in_block(bi):
                     seen_ops[(f[0], f[1], f[2], f[3], f[5])] = f[4]
                     if traps and not nonzero_on(conds) and not (f[5] or '').startswith('checked_'):
+                        unguarded = True
+                for f, guarded_ in closure_ops(bi):
+                    seen_ops[(f[0], f[1], f[2], f[3], f[5])] = f[4]
+                    if traps and not guarded_ and not nonzero_on(conds) and not (f[5] or '').startswith('checked_'):
                         unguarded = True
         if len(seen_ops) != 1:
             res.violation(key, b.loc(), f'{b.name}: with operator {var.name} the folder does not perform exactly one arithmetic '
